@@ -86,10 +86,12 @@ def gen_case(rng, tier, index):
                 post.append({"edit": e})
     case = {"model": model, "pre": pre, "post": post, "good_first": bool(pre) or rng.random() < 0.3, "aborts": aborts,
             "final_jobs": rng.choice([1, 2]), "final_seed": rng.getrandbits(32)}
-    if rng.random() < (0.5 if tier == "thorough" else 0.12):
+    if rng.random() < (0.35 if tier == "thorough" else 0.12):
         case["enumerate"] = True
         case["aborts"] = [{"kind": "bob-kill", "jobs": jobs, "sched_seed": rng.getrandbits(32), "point": 1}]
-        case["max_points"] = None if tier == "thorough" else 10
+        # exhaustive for short invocations; sampled (every k-th point from a seeded offset) beyond
+        # 60 points so that one case stays within minutes on a loaded machine
+        case["max_points"] = 60 if tier == "thorough" else 10
         case["offset"] = rng.randrange(1000)
     return case
 
